@@ -34,6 +34,8 @@ pub fn blocks(thorough: bool) -> Vec<Block> {
         b.push(Block::new(u_kind_pairs(2, 2, false), vec![Cfg::new(0), Cfg::new(X), Cfg::new(X | G | E | NA | NE)], "{}, x, x+g+e+na+ne"));
         b.push(Block::new(u_many(40), some.clone(), "{}, x, g+e, na+ne, x+g+e+na+ne"));
         b.push(Block::new(u_long_prefix(), vec![Cfg::new(0), Cfg::new(NA | NE)], "{}, na+ne"));
+        b.push(Block::new(Universe::new("U_bytes{a,b,U+20AC}", &["a", "b", "\u{20ac}"], 3, 3, false), vec![Cfg::new(0)], "{} (sort order by byte length vs number of graphemes)"));
+        b.push(Block::new(Universe::new("U_bytes{a,e9,U+20AC,U+1F600}", &["a", "\u{e9}", "\u{20ac}", "\u{1f600}"], 2, 3, false), vec![Cfg::new(0)], "{} (1-, 2-, 3- and 4-byte characters)"));
         b.push(Block::new(u_kind_triples(), vec![Cfg::new(0), Cfg::new(X), Cfg::new(X | G | E | NA | NE)], "{}, x, x+g+e+na+ne"));
         b.push(Block::new(u_runs(), neutral.clone(), d32));
     } else {
